@@ -291,8 +291,9 @@ class CircuitCompositeOperation(ICircuitCompositeOperation):
         result: List[ICircuitOperation] = []
         for node in self._circuit_graph.get_node_iterator():
             # Apply relation-link head (Important for nested composite-operations)
-            if not node.operation.has_relation and node.operation.relation_link is not self.relation_link:
-                node.operation.relation_link = self.relation_link
+            # Each node receives its own link instance, a shared link makes distinct sub-circuits compare equal
+            if not node.operation.has_relation and self.has_relation:
+                node.operation.relation_link = self.relation_link.duplicate()
                 clear_start_time_cache()
             # Extend decomposed operation list
             result.extend(node.operation.decomposed_operations())
@@ -367,7 +368,7 @@ class CircuitCompositeOperation(ICircuitCompositeOperation):
 
         for node in other._circuit_graph.get_node_iterator():
             if not node.operation.has_relation:
-                node.operation.relation_link = relation
+                node.operation.relation_link = relation.duplicate()
             self.add(operation=node.operation)
         return self
 
